@@ -67,7 +67,8 @@ def dispatch(ex, st, f: BuiltinRef, args, kwargs):
         tp, meth = name.split(".", 1)
         h = METHODS.get((tp, meth))
         if h is None:
-            raise U(f"method {name}")
+            ex.give_up(st, f"method {name}")
+            return
         yield from h(ex, st, f.bound, args, kwargs)
         return
     h = FUNCS.get(name)
@@ -479,6 +480,18 @@ def _dict(ex, st, args, kwargs):
 def _set(ex, st, args, kwargs):
     if not args:
         yield st, st.alloc(PSet())
+        return
+    a0 = st.deref(args[0])
+    if isinstance(a0, DictView) or isinstance(a0, Opaque):
+        # abstract set: a deterministic function of the collection
+        from .contracts import pure_result
+
+        src = st.get(a0.d) if isinstance(a0, DictView) else a0
+        if isinstance(src, SDict):
+            f = ex.uf("set_of_dict_" + a0.kind, z3.IntSort(), src.key_at.sort(), src.has.sort(), z3sort(("u", "Set")))
+            yield st, Opaque("Set", f(src.n, src.key_at, src.has))
+        else:
+            yield st, pure_result(ex, st, "set_of_" + src.kind, "u:Set", [src])
         return
     items = bm.iter_values(ex, st, args[0])
     if items is None or any(is_sym(i) for i in items):
@@ -1165,7 +1178,8 @@ def call_opaque_method(ex, st, f: BuiltinRef, args, kwargs):
     kind, meth = f.name[len("opaque:"):].split(".", 1)
     spec = ex.db.opaque_method(kind, meth)
     if spec is None:
-        raise U(f"opaque method {kind}.{meth} has no assumed contract")
+        ex.give_up(st, f"opaque method {kind}.{meth} has no assumed contract")
+        return
     yield from spec(ex, st, f.bound, args, kwargs)
 
 
